@@ -70,12 +70,14 @@ Fixpoint regions (l : list event) : list Z :=
   | _ :: r => regions r
   end.
 
-Definition enc_obs (opidx : Z) (t : term) (pending : Z) : list (list Z) :=
-  [1; opidx; enc_bool (crashed t); Z.lor (trig (tmain t)) (trig (talt t)); pending]
+Definition enc_obs_x (opidx : Z) (t : term) (pending : Z) (xtrig : Z) : list (list Z) :=
+  [1; opidx; enc_bool (crashed t); Z.lor xtrig (Z.lor (trig (tmain t)) (trig (talt t))); pending]
     :: enc_screen_hdr 0 (tmain t) :: enc_rows 0 0 (rows (tmain t))
     ++ enc_screen_hdr 1 (talt t) :: enc_rows 1 0 (rows (talt t))
     ++ [4 :: tout t; enc_regs t] ++ enc_strs 0 (vstrs t)
     ++ [enc_digest (tlog t); 8 :: regions (tlog t)].
+
+Definition enc_obs opidx t pending := enc_obs_x opidx t pending 0.
 
 Definition clear_io (t : term) : term :=
   mkTerm (tmain t) (talt t) (onalt t) (vflags t) (vints t) (vstrs t) (kbm t) (kba t) [] [].
@@ -94,7 +96,8 @@ Definition run_op (st : cst) (line : list Z) : cst * list (list Z) :=
   | 111 :: w :: h :: _ =>
       if crashed (c_t st) then (st, enc_obs (c_idx st) (c_t st) (zlen (c_pend st))) else
       let t' := resize w h (clear_io (c_t st)) in
-      (mkCst t' (c_pend st) (c_tbl st) (c_grid st) (c_idx st + 1), enc_obs (c_idx st) t' (zlen (c_pend st)))
+      let xt := match c_pend st with 27 :: _ => trLockedRead | _ => 0 end in
+      (mkCst t' (c_pend st) (c_tbl st) (c_grid st) (c_idx st + 1), enc_obs_x (c_idx st) t' (zlen (c_pend st)) xt)
   | _ => (st, [])
   end.
 
